@@ -133,6 +133,7 @@ class World(object):
         self._out = {}
         self._converr = {}
         self._has = {}
+        self.hook_skipped = set()
         self._undef = {}
         self._sel = {}
         self._clean = {}
@@ -338,8 +339,13 @@ class World(object):
                     filler.warning("fill %d", i)
         if src.endswith(".sub"):
             # nested sub-step (execute_steps): passes, or fails iff its own outcome is assert-fail
-            if self.out(sid, src) == OUT_ASSERT:
+            o_ = self.out(sid, src)
+            if o_ == OUT_ASSERT:
+                self.events.append(("assert", sid, src))
                 raise AssertionError("boom %s" % src)
+            if o_ == OUT_EXC and self.opts.get("nested_exceptions"):
+                self.events.append(("exception", sid, src))
+                raise RuntimeError("exc %s" % src)
             return
         if src in self.opts.get("nested_steps", ()):
             context.execute_steps(u"Given do %s.sub\nThen do %s.sub2.sub" % (src, src))
@@ -448,6 +454,13 @@ class World(object):
                     owner = None
                 if w.opts.get("hook_probe"):
                     w.opts["hook_probe"](w, name, context, args)
+                if name == "before_scenario" and w.opts.get("hook_skip_scenario"):
+                    # a before_scenario hook that excludes its own scenario at run time (the n-th one, n symbolic)
+                    n_ = w._bs_seen = getattr(w, "_bs_seen", -1) + 1
+                    if w.sx.int("hook_skips_scenario") == n_:
+                        w.hook_skipped.add(str(arg))
+                        w.events.append(("hook-skip", str(arg)))
+                        context.scenario.skip()
                 for f in (fault, fault2):
                     if w.phase == 2 and w.opts.get("fault_first_run_only"):
                         break       # the second run of a two-run history is fault-free
